@@ -12,6 +12,7 @@ package printer
 //@ wf printer: self.lv >= 0 && self.cfg.Width >= 0 && self.w != nil
 
 //@ default opaque
+//@ default variants
 
 // Every printing method keeps the indentation level and the depth of the
 // here-document stack.
@@ -131,6 +132,7 @@ package printer
 // here-document cannot come from the parser, but that is a property of the
 // grammar, not of a single node, and is not proved here.
 //@ func (*printer).heredoc
+//@   callsonly[C18] printer.(*printer).newline printer.(*printer).word
 //@   requires len(p.stack) >= 1
 //@   waive requires "printer.(*printer).word" needs a grammar-level invariant (no here-document inside a one-line command substitution of a here-document body)
 //@   ensures len(p.stack) == old(len(p.stack)) - 1 && p.lv == old(p.lv)
